@@ -85,12 +85,15 @@ def drive_halves(rec, part, reps):
             xs = [lanes(qc, lx, "halves", rng, i) for i in range(ell * xe)]
             ys = [lanes(qc, ly, "halves" if ly != "c" else "noncanon", rng, i) for i in range(ell * ye)]
             got = {}
+            same = kind in ("baa", "bbb") and rep % 3 == 2       # both operands are one and the same buffer (a sum of squares)
+            if same:
+                ys = xs
             for impl in ("ref", "avx2"):
-                label = "q120 product %s_%s ell=%d pattern=half-word boundaries" % (kind, impl, ell)
+                label = "q120 product %s_%s ell=%d pattern=half-word boundaries%s" % (kind, impl, ell, ", x and y the same buffer" if same else "")
                 if not rec.progress(label):
                     continue
-                res = q120.product(qc, kind, impl, xs, ys, off=rng.choice([0, 8]))
-                rec.case((kind, impl, "halves", min(ell, 10)))
+                res = q120.product(qc, kind, impl, xs, ys, off=rng.choice([0, 8]), same=same)
+                rec.case((kind, impl, "halves", min(ell, 10), same))
                 if res is None:
                     rec.violation(label + ": operand modified or write outside the result", {"kind": kind, "ell": ell})
                     continue
@@ -117,11 +120,14 @@ def drive_products(rec, part, ells, reps):
                 ys = [lanes(qc, ly, (pattern if pattern != "lane" else "random") if ly == "c" or pattern != "noncanon" else "random", rng, i)
                       for i in range(ell * ye)]
                 results = {}
+                same = kind in ("baa", "bbb") and pattern in ("random", "max") and rep % 2 == 1
+                if same:
+                    ys = xs
                 for impl in ("ref", "avx2"):
-                    label = "q120 product %s_%s ell=%d pattern=%s" % (kind, impl, ell, pattern)
+                    label = "q120 product %s_%s ell=%d pattern=%s%s" % (kind, impl, ell, pattern, ", x and y the same buffer" if same else "")
                     if not rec.progress(label):
                         continue
-                    res = q120.product(qc, kind, impl, xs, ys, off=rng.choice([0, 8, 16, 24]))
+                    res = q120.product(qc, kind, impl, xs, ys, off=rng.choice([0, 8, 16, 24]), same=same)
                     rec.case((kind, impl, ell, pattern), nontrivial=ell > 0)
                     if res is None:
                         rec.violation(label + ": operand modified or write outside the result", {"kind": kind, "ell": ell})
